@@ -42,13 +42,17 @@ def selftest():
         shutil.rmtree(d, ignore_errors=True)
     env = dict(os.environ)
     env.update(vlib.GOENV)
-    try:
-        shutil.copy(os.path.join(vlib.REPO, "go.sum"), os.path.join(vlib.HARNESS, "go.sum"))
-    except Exception:
-        pass
     d = tempfile.mkdtemp(prefix="verif-selftest-bin-")
     try:
-        p = subprocess.run(["go", "build", "-tags", "verif", "-o", d + "/", "./cmd/..."], cwd=vlib.HARNESS, env=env,
+        mf = os.path.join(d, "alt.mod")
+        with open(os.path.join(vlib.HARNESS, "go.mod")) as fh:
+            txt = fh.read().replace("=> /repo", "=> " + vlib.REPO)
+        with open(mf, "w") as fh:
+            fh.write(txt)
+        shutil.copy(os.path.join(vlib.REPO, "go.sum"), os.path.join(d, "alt.sum"))
+        os.makedirs(os.path.join(d, "bin"))
+        p = subprocess.run(["go", "build", "-tags", "verif", "-modfile", mf, "-o", os.path.join(d, "bin") + "/", "./cmd/..."],
+                           cwd=vlib.HARNESS, env=env,
                            stdout=subprocess.PIPE, stderr=subprocess.STDOUT, text=True, timeout=1800)
         print("go build -tags verif ./cmd/...: %s" % ("ok" if p.returncode == 0 else "FAILED"))
         if p.returncode != 0:
